@@ -57,13 +57,16 @@ Definition utf_len (s : str) (wantstop : bool) : UtfDefs.nres :=
   if num s <=? len b then UtfDefs.a_utf_length b (num s) wantstop else UtfDefs.NOver.
 
 (* ------------------------------------------------------------------ the probe of the drivers
-   After operation number k of a case both drivers evaluate, for each of the two objects,
+   After operation number k of a case both drivers evaluate, with h = mix k (a fixed scrambling of
+   the operation number, so that small k reach every index class), for each of the two objects,
      a_str_ptr, a_str_len, a_str_mem,
-     a_str_at_(k mod mem)                 only when ptr_ != NULL and mem_ > 0 (its precondition),
-     a_str_at(k mod (mem + 2)),           so mem and mem + 1 (out of bounds) are reached,
-     a_str_of((k mod (num + mem + 3)) - (num + 1)),    from -(num+1) (out of bounds) to mem + 1,
+     a_str_at_(h mod mem)                 only when ptr_ != NULL and mem_ > 0 (its precondition),
+     a_str_at((h / 7) mod (mem + 2)),     so mem and mem + 1 (out of bounds) are reached,
+     a_str_of(((h / 3) mod (num + mem + 3)) - (num + 1)),    from -(num+1) (out of bounds) to mem + 1,
      a_utf_len(ctx, &stop) and a_utf_len(ctx, NULL)    only when num_ <= mem_,
-   and a_str_cmp_(A.ptr, k mod (A.num + 1), B.ptr, B.num) when num_ <= mem_ in both. *)
+   and a_str_cmp_(A.ptr, (h / 5) mod (A.num + 1), B.ptr, B.num) when num_ <= mem_ in both. *)
+Definition mix (k : N) : N := (k * 2654435761 + 12345) mod 4294967296.
+
 Record probe : Type := mkProbe {
   q_ptr : aptr; q_len : N; q_mem : N;
   q_at_ : option aptr;
@@ -72,19 +75,19 @@ Record probe : Type := mkProbe {
   q_utf : option (UtfDefs.nres * UtfDefs.nres) }.
 
 Definition probe_idx_of (k : N) (s : str) : Z :=
-  (Z.of_N (k mod (num s + mem s + 3)) - Z.of_N (num s + 1))%Z.
+  (Z.of_N ((mix k / 3) mod (num s + mem s + 3)) - Z.of_N (num s + 1))%Z.
 
 Definition probe_str (k : N) (s : str) : probe :=
   mkProbe (str_ptr s) (str_len s) (str_mem s)
           (match ptr s with
-           | Some _ => if 0 <? mem s then Some (str_at_ s (k mod mem s)) else None
+           | Some _ => if 0 <? mem s then Some (str_at_ s (mix k mod mem s)) else None
            | None => None
            end)
-          (str_at s (k mod (mem s + 2)))
+          (str_at s ((mix k / 7) mod (mem s + 2)))
           (str_of s (probe_idx_of k s))
           (if num s <=? mem s then Some (utf_len s true, utf_len s false) else None).
 
 Definition probe_cmp (k : N) (m : mstate) : option (option Z) :=
   if (num (sA m) <=? mem (sA m)) && (num (sB m) <=? mem (sB m))
-  then Some (cmp_ (ptr (sA m)) (k mod (num (sA m) + 1)) (ptr (sB m)) (num (sB m)))
+  then Some (cmp_ (ptr (sA m)) ((mix k / 5) mod (num (sA m) + 1)) (ptr (sB m)) (num (sB m)))
   else None.
